@@ -309,6 +309,24 @@ def KeyRow (sch : Schema) (key : Str) : Prop := ∃ lf, (lf, key, FT.str) ∈ sc
 def RowOK (sch : Schema) (key : Str) (row : KVs) : Prop :=
   ObjWF sch row ∧ ∃ s, lookup key row = some (.str s)
 
+def isStrJ : JVal → Bool
+  | .str _ => true
+  | _ => false
+
+def rowOKb (sch : Schema) (key : Str) (row : KVs) : Bool :=
+  objWFb sch row && (match lookup key row with
+    | some v => isStrJ v
+    | none => false)
+
+theorem rowOKb_sound (sch : Schema) (key : Str) (row : KVs) (h : rowOKb sch key row = true) : RowOK sch key row := by
+  simp only [rowOKb, Bool.and_eq_true] at h
+  refine ⟨objWFb_sound sch row h.1, ?_⟩
+  cases hl : lookup key row with
+  | none => simp [hl] at h
+  | some v =>
+    cases v <;> simp [hl, isStrJ] at h
+    exact ⟨_, rfl⟩
+
 theorem plain_block_ok (sch : Schema) (hwf : SchemaWF sch) (key : Str) (hk : KeyRow sch key) (row : KVs)
     (hrow : RowOK sch key row) :
     PlainOK (removeEmpty ((dict2entry sch none row).getD [])) ∧
@@ -392,8 +410,8 @@ theorem keyed_roundtrip (sch : Schema) (hwf : SchemaWF sch) (key pfx : Str) (hk 
   have hempty : NoPfx (pfxOf pfx) (emptyListEntry sch) := by
     apply NoPfx_of_plain
     intro p hp'
-    obtain ⟨r, hr', e⟩ := List.mem_map.mp hp'
-    rw [← e]
+    obtain ⟨_, r, hr', e⟩ := emptyListEntry_mem sch p hp'
+    rw [e]
     exact hwf.2.2 r hr'
   have hok_sub : ∀ X : Entry, optKeysOk (pfxOf pfx) X = true → optKeysOk (pfxOf pfx) (removeEmpty X) = true := by
     intro X hX
@@ -407,8 +425,7 @@ theorem keyed_roundtrip (sch : Schema) (hwf : SchemaWF sch) (key pfx : Str) (hk 
   cases rows with
   | nil =>
     refine ⟨emptyListEntry sch, by simp [toObjList, hs], ?_, hempty⟩
-    have hE : removeEmpty (emptyListEntry sch) = [] := by
-      simp [removeEmpty, emptyListEntry, List.filter_eq_nil_iff]
+    have hE : removeEmpty (emptyListEntry sch) = [] := removeEmpty_emptyListEntry sch
     have hall : NoPfx (pfxOf pfx) (removeEmpty A ++ [] ++ removeEmpty C) :=
       NoPfx_append (NoPfx_append (NoPfx_removeEmpty hA) (by intro p hp'; cases hp')) (NoPfx_removeEmpty hC)
     simp only [hE, groupedToList, optionsOf_nil_of_noPfx _ _ hall, decodeGroups, List.map_nil]
